@@ -341,8 +341,19 @@ class Model:
                             [d for var_shape in modelica_shape for d in var_shape if d is not None]
                         )
 
+                    # A numeric attribute set on the declaration of an array inside a class that
+                    # is itself instantiated as an array of components (e.g. "Real x[3](start =
+                    # {1, 2, 3})" in A, with "A a[2]") only spans the dimensions of that
+                    # innermost array. Such a value is indexed with the trailing indices.
+                    if old_var.symbol.name() in self.delay_states:
+                        n_inner = len(iterator_shape)
+                    else:
+                        n_inner = len([d for d in modelica_shape[-1] if d is not None])
+                    full_shapes = (tuple(iterator_shape), tuple(old_var.symbol.shape))
+
                     # Generate symbols for each possible combination of indices
                     for ind in np.ndindex(iterator_shape):
+                        inner_ind = ind[len(ind) - n_inner :]
                         component_symbol = ca.MX.sym(
                             component_name_format.format(*tuple(i + 1 for i in ind))
                         )
@@ -355,11 +366,14 @@ class Model:
                                     # Just assign without indexing
                                     val = value
                                 elif isinstance(value, list):
+                                    depth, val = 0, value
+                                    while isinstance(val, list):
+                                        depth, val = depth + 1, val[0]
                                     val = value
-                                    for i in ind:
+                                    for i in ind if depth == len(ind) else inner_ind:
                                         val = val[i]
                                 elif isinstance(value, (ca.DM, np.ndarray)):
-                                    val = value[ind]
+                                    val = value[ind if tuple(value.shape) in full_shapes else inner_ind]
                                     if old_var.python_type in {float, int}:
                                         val = old_var.python_type(val)
                                 else:
